@@ -23,6 +23,7 @@ for name, comp in vcheck.load_components().items():
     text, meta = cxx2c.extract(src_tu, [os.path.join(vcheck.REPO, 'include'), vcheck.REPO], vcheck.DEFS, comp.symbolic, extra)
     keep = lambda f: f in comp.functions or any(k[0] == f for k in comp.loops)
     out[name] = {f: p for f, p in spec.signatures_of(text).items() if keep(f)}
+    out[name + '#functions'] = sorted(spec.signatures_of(text))
     out[name + '#locals'] = {f: p for f, p in spec.locals_of(text).items() if keep(f) and p}
 json.dump(out, open(os.path.join(ROOT, 'contracts', 'signatures.json'), 'w'), indent=1, sort_keys=True)
 print({k: len(v) for k, v in out.items()})
